@@ -8,6 +8,7 @@ import (
 	"hash/fnv"
 	"runtime/debug"
 	"strings"
+	"sync"
 
 	jschema "github.com/jsightapi/jsight-schema-go-library"
 	jbytes "github.com/jsightapi/jsight-schema-go-library/bytes"
@@ -44,6 +45,9 @@ type Spec struct {
 	Types   []TypeDef `json:"types,omitempty"`
 	Rules   []RuleDef `json:"rules,omitempty"`
 	OptKeys bool      `json:"keys_optional_by_default,omitempty"`
+	// SecondWithout: a second root with the same text is built over the same type objects, given
+	// every type except the named one (lib.SecondOf returns it). Not part of replays' identity.
+	SecondWithout string `json:"second_root_without,omitempty"`
 	// FullReg: every JSight type is also added to every other JSight type (the way an API
 	// document registers its types), not only to the root.
 	FullReg bool `json:"types_added_to_every_type,omitempty"`
@@ -306,7 +310,32 @@ func BuildWithBuffer(sp Spec, fromBytes bool) (s *njs.Schema, buf []byte, o Obs)
 			return s, buf, Observe(err)
 		}
 	}
+	if sp.SecondWithout != "" {
+		// a second root over the SAME type objects, given every type but one
+		second := njs.New("root", sp.Text, opts...)
+		for _, r := range sp.Rules {
+			_ = second.AddRule(r.Name, enum.New(r.Name, r.Text))
+		}
+		for i, t := range sp.Types {
+			if t.Name != sp.SecondWithout {
+				_ = second.AddType(t.Name, built[i])
+			}
+		}
+		secondRoots.Store(s, second)
+	}
 	return s, buf, Obs{OK: true, Code: -1, Pos: -1}
+}
+
+var secondRoots sync.Map
+
+// SecondOf returns the second root built for Spec.SecondWithout (nil when there is none); the
+// entry is dropped.
+func SecondOf(s *njs.Schema) *njs.Schema {
+	v, ok := secondRoots.LoadAndDelete(s)
+	if !ok {
+		return nil
+	}
+	return v.(*njs.Schema)
 }
 
 // Prelude uses throw-away objects on broken texts right before the real ones are built: the same
